@@ -460,9 +460,18 @@ spif_linked_list_show(spif_linked_list_t self, spif_charptr_t name, spif_str_t b
 static spif_cmp_t
 spif_linked_list_comp(spif_linked_list_t self, spif_linked_list_t other)
 {
+    spif_linked_list_item_t a, b;
+
     SPIF_OBJ_COMP_CHECK_NULL(self, other);
-    /* FIXME:  This should probably do something more intelligent. */
-    return (SPIF_OBJ_COMP(SPIF_OBJ(self), SPIF_OBJ(other)));
+    for (a = self->head, b = other->head; a && b; a = a->next, b = b->next) {
+        spif_cmp_t c = spif_linked_list_item_comp(a, b);
+
+        if (!SPIF_CMP_IS_EQUAL(c)) {
+            return c;
+        }
+    }
+    /* One is a prefix of the other:  the shorter one sorts first. */
+    return ((a) ? (SPIF_CMP_GREATER) : ((b) ? (SPIF_CMP_LESS) : (SPIF_CMP_EQUAL)));
 }
 
 static spif_linked_list_t
